@@ -22,7 +22,7 @@ use crate::{
 pub const DEF: PropDef = PropDef {
     id: "C15",
     groups,
-    rule: "presence lattice: for each of the 11 fields (sample_count, sample_size, threads, min_time, max_time, skip_ext_time, ignore, 4 counter kinds) all 2^5 patterns of {unset, value} over (runner, benchmark, 3 nested groups) with values distinct per level are enumerated (352 cases, exhaustive for that sub-space); random: generated trees with every field independently set or unset at every level, thread lists with 0 and duplicates, Bencher::counter / input_counter in the body, ignore flags {none, --ignored, --include-ignored}; runner level through Divan builder calls (in-process) and through CLI flags, DIVAN_* environment variables and both together (child process); \
+    rule: "presence lattice: for each of the 11 fields (sample_count, sample_size, threads, min_time, max_time, skip_ext_time, ignore, 4 counter kinds) all 2^5 patterns of {unset, value} over (runner, benchmark, 3 nested groups) with values distinct per level are enumerated (352 cases, exhaustive for that sub-space); random: generated trees with every field independently set or unset at every level, thread lists with 0 and duplicates, Bencher::counter / input_counter in the body, ignore flags {none, --ignored, --include-ignored}; runner level through Divan builder calls (in-process) and through CLI flags, DIVAN_* environment variables and both together (child process); bench-mode cases are also judged on their printed rows (C20's reference: a row per counter kind still in effect after tuning, samples / iters cells); compiled programs (real macros, ignore written as an option, as #[ignore] and as #[ignore = \"reason\"] on functions and group modules) under {no flag, --ignored, --include-ignored}; \
            non-trivial = options are set at at least two different levels (runner / benchmark / groups) for some executed benchmark, so that masking or wrong precedence would be visible; distinct by serialized case.",
     assumptions: &[
         "effective options are read inside the benchmark body through a cfg(divan_verif) accessor (the BenchOptions and thread count the runner handed to the Bencher) and cross-checked behaviourally (call counts, thread branches, skipped benchmarks)",
@@ -171,6 +171,17 @@ pub fn check_case(c: &Case) -> Verdict {
     };
     match judge(&c.spec, &c.runner, c.ignored, c.bench_mode, &run) {
         Ok(n) => {
+            // The options still in effect when the statistics are computed:
+            // the printed rows of a bench run (one throughput row per counter
+            // kind in effect, samples / iters cells) judged by C20's reference.
+            if c.bench_mode {
+                let shown = super::c20::Case { spec: c.spec.clone(), action: "bench".into(), filters: Vec::new(), ignored: c.ignored, runner: c.runner.clone(), binary: false };
+                if let Verdict::Fail { signature, message } = super::c20::check_case(&shown) {
+                    if matches!(signature.as_str(), "continuation-rows" | "count-cells" | "iters-vs-calls" | "throughput-cell" | "row-shape") {
+                        return Verdict::fail(format!("output:{signature}"), message);
+                    }
+                }
+            }
             classify(format!("flag={}{}", c.ignored, if c.bench_mode { "/bench" } else { "" }));
             Verdict::pass(n)
         }
@@ -367,6 +378,7 @@ fn cli_case() -> impl Strategy<Value = CliCase> {
 
 fn groups(g: &mut Groups) {
     g.enumerate("presence_lattice", lattice, true, check_case);
-    g.prop("twin", 15_000, 300_000, || case(), check_case);
-    g.prop("cli_env", 1_200, 12_000, || cli_case(), check_cli);
+    g.prop("twin", 15_000, 1_500_000, || case(), check_case);
+    super::e3::c15_groups(g);
+    g.prop("cli_env", 1_200, 60_000, || cli_case(), check_cli);
 }
